@@ -99,6 +99,19 @@ fn fwd_oracle(c: &Case) -> Verdict {
     ensure!(dur_acc.to_parts() == r.duration.to_parts(), "to_et/tdb_duration differs from to_time_scale");
     ensure!(secs_acc == lib!(r.duration.to_seconds()), "to_et/tdb_seconds differs from the duration's seconds");
     ensure!(count(jde) == got + 2_451_545 * NS_D, "to_jde_et/tdb_duration = {} want {}", count(jde), got + 2_451_545 * NS_D);
+    // float-valued accessors of the dynamical reading: the converted count in days / centuries / JD days, to float precision
+    {
+        let (days, cent, jd_days) = if c.dynamical == S_ET {
+            (lib!(e.to_et_days_since_j2000()), lib!(e.to_et_centuries_since_j2000()), lib!(e.to_jde_et_days()))
+        } else {
+            (lib!(e.to_tdb_days_since_j2000()), lib!(e.to_tdb_centuries_since_j2000()), lib!(e.to_jde_tdb_days()))
+        };
+        for (name, v, p, q) in [("days since J2000", days, got, NS_D), ("centuries since J2000", cent, got, NPC), ("JD days", jd_days, got + 2_451_545 * NS_D, NS_D)] {
+            if let Err(m) = super::c17::check_float(name, v, p, q) {
+                return Verdict::Fail(format!("{} J2000{:+} ns read in {}: {}", SCALE_NAMES[c.src], c.off, SCALE_NAMES[c.dynamical], m));
+            }
+        }
+    }
     let far = c.off.abs() > 100 * 365 * NS_D;
     let class = if far { "|t|>100y" } else if c.src != S_TAI { "non-TAI-source" } else { "plain" };
     Verdict::Pass(class, class != "plain")
